@@ -92,16 +92,16 @@ theorem escape_table_counterexample :
     quoteStr ['\x0b'] = ['"', '\\', 'v', '"'] ∧ Legacy.ReadPrint.escapeChar 'v' = none ∧
     quoteStr ['\x01'] = ['"', '\\', 'x', '0', '1', '"'] ∧ Legacy.ReadPrint.escapeChar 'x' = none ∧
     Legacy.ReadPrint.escapeChar 'u' = none ∧ Legacy.ReadPrint.escapeChar 'U' = none ∧
-    Legacy.ReadPrint.escapeChar 'b' = none ∧ Legacy.ReadPrint.escapeChar 'f' = none := by decide
+    Legacy.ReadPrint.escapeChar 'b' = none ∧ Legacy.ReadPrint.escapeChar 'f' = none := by decide +kernel
 
 /-- before C12-03 the float 2.0 (FormatFloat gives `2`) printed as `2`, which is read as the
 INTEGER 2 -/
 theorem whole_float_counterexample :
-    let ff : FloatFmt := fun _ _ => ['2']
-    Legacy.ReadPrint.printFloat ff 0x4000000000000000 false = ['2'] ∧
+    Legacy.ReadPrint.printFloat (fun _ _ => ['2']) 0x4000000000000000 false = ['2'] ∧
     (decodeAtom ['2']).toOption = some ⟨.decimal, ['2']⟩ ∧
     atomOfTok ⟨.decimal, ['2']⟩ = some (some (.int 2)) ∧
-    printFloat ff 0x4000000000000000 false = ['2', '.', '0'] := by decide
+    printFloat (fun _ _ => ['2']) 0x4000000000000000 false = ['2', '.', '0'] :=
+  ⟨rfl, by decide, rfl, by decide⟩
 
 /-- before C12-04 the string key `a"b` printed as `"a"b"`: the literal ends after `a` -/
 theorem hash_key_counterexample :
